@@ -298,7 +298,7 @@ func init() {
 		ID: "C11",
 		Profiles: []*Profile{
 			func() *Profile {
-				p := dataProfile("c11-base", map[string]int{"close": 0, "call": 5, "auth": 2, "tokreset": 3, "token": 3, "httpget": 3, "httpburst": 5, "sysreset": 6, "reaccess": 4, "custom": 2, "refburst": 4, "recheckburst": 9})
+				p := dataProfile("c11-base", map[string]int{"close": 0, "call": 5, "auth": 2, "tokreset": 7, "token": 3, "httpget": 3, "httpburst": 5, "sysreset": 6, "reaccess": 4, "custom": 2, "refburst": 4, "recheckburst": 9})
 				p.MinOps, p.MaxOps, p.MaxConns, p.Prologue = 4, 16, 3, 60
 				p.Patterns = []string{">", "t.>", "t.a", "t.b"}
 				return p
